@@ -393,7 +393,8 @@ def check_c07(chk, args):
             if cname not in ctxs:
                 continue
             for extra in ({'max_seq_len': None}, {'max_seq_len': 10 ** 6, 'depth': 50}, {'depth': None, 'indent': 2},
-                          {'max_seq_len': None, 'depth': None, 'width': 30}):
+                          {'max_seq_len': None, 'depth': None, 'width': 30}, {'sort_dict_keys': True},
+                          {'sort_dict_keys': True, 'width': 20, 'indent': 2}):
                 v = ctxs[cname](obj)
                 desc = {'type': kind, 'object': repr(obj)[:200], 'context': cname, 'settings': extra}
                 out = print_total(chk, v, desc, **extra)
